@@ -17,7 +17,10 @@ QUICK = [("default", False), ("all", False), ("nodefault", False)]
 THOROUGH = QUICK + [("minext", False), ("default", True), ("all", True), ("nodefault", True), ("minext", True)]
 # properties about optional integrations are also decided with those features on and `std` off (a cfg predicate that ties an
 # integration to `std` changes nothing in the other configurations)
-PROP_EXTRA_CONFIGS = {"C17": [("optnostd", False)], "C11": [("optnostd", False)]}
+# ... and properties whose code may differ by pointer width or architecture (orderings, layout arithmetic, the overflow limit) are
+# also decided on a 32-bit non-x86 target
+ARM32 = [("arm32", False)]
+PROP_EXTRA_CONFIGS = {"C17": [("optnostd", False)], "C11": [("optnostd", False)], "C01": ARM32, "C02": ARM32, "C03": ARM32, "C05": ARM32, "C06": ARM32, "C07": ARM32, "C10": ARM32, "C16": ARM32}
 
 
 class Ctx:
